@@ -126,7 +126,9 @@ ModelAgrees ==
 FreshVerdict == IF freshFlagged = {} THEN "ok"
                 ELSE LET RECURSIVE J(_)
                          J(i) == IF i > Len(Root) THEN ""
-                                 ELSE IF Root[i] \in freshFlagged THEN Add(Root[i], J(i + 1)) ELSE J(i + 1)
+                                 ELSE IF Root[i] \in freshFlagged
+                                      THEN (IF J(i + 1) = "" THEN Root[i] ELSE Root[i] \o "|" \o J(i + 1))
+                                      ELSE J(i + 1)
                      IN J(1)
 Finished == l > Len(All)
 Report == Finished => PrintT(<<"VERDICT", T.id, l - 1, IF verdict = "" THEN "ok" ELSE verdict, Shape, ModelAgrees,
